@@ -270,6 +270,8 @@ func runC09(c *fw.Ctx) {
 		{Kind: "Compose", Bucket: "b", Name: "c", Srcs: []GSrc{{Name: "a.txt"}, {Name: "d/x"}}, Meta: gcs.ObjMeta{ContentType: "text/c"}},
 		{Kind: "Copy", Bucket: "b", Name: "d/x", DstBucket: "b", DstName: "copy/of/x"},
 		{Kind: "Copy", Bucket: "b", Name: "a.txt", DstBucket: "b2", DstName: "a.txt"},
+		{Kind: "Copy", Bucket: "b", Name: "a.txt", DstBucket: "b", DstName: "a.txt"}, // onto itself
+		{Kind: "Copy", Bucket: "b", Name: "d/x", DstBucket: "b", DstName: "a.txt", Meta: gcs.ObjMeta{ContentType: "text/rewritten"}},
 		{Kind: "CreateBucket", Bucket: "b2"},
 		// the bucket resource itself: of a bucket that exists, that may not exist yet, that never exists
 		{Kind: "GetBucket", Bucket: "b"}, {Kind: "GetBucket", Bucket: "b2"}, {Kind: "GetBucket", Bucket: "nobucket"},
